@@ -25,3 +25,7 @@ extern "C" void verif_force_boxed(int *p, const int *cp, std::shared_ptr<int> sp
   verif_sink4 = a.get_ptr(); verif_sink4 = const_cast<void *>(b.get_const_ptr());
   (void)c; (void)d; (void)e; (void)f; (void)g; (void)h; (void)i; (void)j;
 }
+// a polymorphic hierarchy for the registered base-class conversion (base_class<Base, Derived>()): the down-cast half is Dynamic_Caster<Base, Derived>::cast
+namespace verif_types { struct Base { virtual ~Base() = default; int b = 0; }; struct Derived : Base { int d = 0; }; }
+template class chaiscript::detail::Dynamic_Caster<verif_types::Base, verif_types::Derived>;
+template class chaiscript::detail::Static_Caster<verif_types::Derived, verif_types::Base>;
